@@ -387,6 +387,9 @@ def cases(tier, seed, focus=None):
     for _ in range(100 if thorough else 10):  # other solver parameters
         out.append({"clause": "mgda", "matrix": _mspec(rng, rng.choice([2, 3, 5]), rng.randint(1, 8), MGDA_KINDS),
                     "epsilon": rng.choice([0.0, 1e-6, 0.1]), "max_iters": rng.choice([1, 3, 500])})
+    for _ in range(150 if thorough else 15):  # two rows, a single Frank-Wolfe step must already be exact
+        out.append({"clause": "mgda", "matrix": _mspec(rng, 2, rng.randint(2, 6), ["gauss", "rowscales", "antiparallel"]),
+                    "epsilon": 0.001, "max_iters": 1})
     # ---- Random
     for _ in range(200 if thorough else 20):
         out.append({"clause": "random", "matrix": _mspec(rng, rng.randint(1, 12), rng.randint(1, 8), ["gauss", "zero", "rowscales"]),
